@@ -33,12 +33,13 @@ def convOfItem : ITy → Conv
   | .base b => .base (bconvOf b)
   | .union alts => .union (alts.map bconvOf)
 
-/-- `get_argparse_type_for_container(List[T])`: `Any → str`; a Union item type is returned as the
-    typing object itself (calling it raises) — outside the modelled fragment. -/
+/-- `get_argparse_type_for_container(List[T])`: `Any → str`; a Union item type gets the
+    try-in-order parser (since the repair of `list[int | str]`; before, the typing object itself
+    was handed to argparse). -/
 def containerConv : ITy → Option Conv
   | .base .any => some (.base .str)
   | .base b => some (.base (bconvOf b))
-  | .union _ => none
+  | .union alts => some (.union (alts.map bconvOf))
 
 def allEq : List ITy → Bool
   | [] => true
